@@ -6,3 +6,6 @@ import MCHap.Properties.C03
 #print axioms MCHap.C03.mode_is_max
 #print axioms MCHap.C03.streamMode_spec
 #print axioms MCHap.C03.stream_eq_array
+#print axioms MCHap.C03.acp_sum_ploidy
+#print axioms MCHap.C03.afp_sum_one
+#print axioms MCHap.C03.gpm_le_spm_le_one
